@@ -124,16 +124,16 @@ pub fn push_violation(v: &mut Vec<ViolationRec>, rec: ViolationRec) {
 #[macro_export]
 macro_rules! dispatch {
     ($dim:expr, $kernel:expr, $f:ident, $($arg:expr),*) => {{
-        use delaunay::geometry::kernel::{FastKernel, RobustKernel};
+        use $crate::kfault::{SimFast, SimRobust};
         match ($dim, $kernel) {
-            (2, "fast") => $f::<FastKernel<f64>, 2>($($arg),*),
-            (3, "fast") => $f::<FastKernel<f64>, 3>($($arg),*),
-            (4, "fast") => $f::<FastKernel<f64>, 4>($($arg),*),
-            (5, "fast") => $f::<FastKernel<f64>, 5>($($arg),*),
-            (2, _) => $f::<RobustKernel<f64>, 2>($($arg),*),
-            (3, _) => $f::<RobustKernel<f64>, 3>($($arg),*),
-            (4, _) => $f::<RobustKernel<f64>, 4>($($arg),*),
-            (5, _) => $f::<RobustKernel<f64>, 5>($($arg),*),
+            (2, "fast") => $f::<SimFast, 2>($($arg),*),
+            (3, "fast") => $f::<SimFast, 3>($($arg),*),
+            (4, "fast") => $f::<SimFast, 4>($($arg),*),
+            (5, "fast") => $f::<SimFast, 5>($($arg),*),
+            (2, _) => $f::<SimRobust, 2>($($arg),*),
+            (3, _) => $f::<SimRobust, 3>($($arg),*),
+            (4, _) => $f::<SimRobust, 4>($($arg),*),
+            (5, _) => $f::<SimRobust, 5>($($arg),*),
             _ => panic!("unsupported dimension"),
         }
     }};
